@@ -64,13 +64,21 @@ def build_jawk_bin():
 
 
 # ----------------------------------------------------------------------------- harness
+# environment variables every harness process is started with (the `env` function is given a meaning on exactly these names: Expr.tla, c.env);
+# names in HARNESS_ENV_ABSENT are removed from the environment
+HARNESS_ENV = {"JAWK_VERIF_A": "alpha", "JAWK_VERIF_EMPTY": "", "JAWK_VERIF_U": "h\u00e9 \u65e5", "JAWK_VERIF_JSON": "{\"a\": [1, 2]}", "jawk_verif_a": "lower"}
+HARNESS_ENV_ABSENT = ["JAWK_VERIF_NONE", "JAWK_VERIF_a"]
+for _n in HARNESS_ENV_ABSENT:
+    os.environ.pop(_n, None)
+
+
 def _run_shard(binary, cases, results, timeout_ms):
     """Run cases through one harness process, restarting after a hang or an abort."""
     i = 0
     while i < len(cases):
         chunk = cases[i:]
         inp = "".join(json.dumps(dict(c, timeout_ms=c.get("timeout_ms", timeout_ms))) + "\n" for c in chunk)
-        p = subprocess.run([binary], input=inp, stdout=subprocess.PIPE, stderr=subprocess.PIPE, text=True)
+        p = subprocess.run([binary], input=inp, stdout=subprocess.PIPE, stderr=subprocess.PIPE, text=True, env=dict(os.environ, **HARNESS_ENV))
         got = 0
         for line in p.stdout.split("\n"):
             try:
